@@ -4,7 +4,7 @@ CONSTANTS
   U128MAX = 100000
   MINLIQ = 2
   Users = {"u1", "u2"}
-  StrictNested = TRUE
+  StrictNested = FALSE
   Nested = TRUE
   Amt = {3, 5}
   LoanAmt = {1, 4}
